@@ -35,7 +35,7 @@ public:
 
   explicit ABSExpression(std::vector<Expression*>&& args) : BuiltinExpression(FUNC_ABS, std::move(args)) { }
 
-  const Type& type(Context& ctx) const override { return _args[0]->type(ctx); }
+  const Type& type(Context& ctx) const override;
 
   Value& value(Context& ctx) const override;
 
